@@ -123,6 +123,36 @@ EQUIV = [("K", "J", "thermal", {}, "valid"), ("J", "K", "thermal", {}, "valid"),
          ("g*m/cm", "erg", "mass_energy", {}, "reducible-unit")]
 
 
+def equivalence_branch_specs():
+    """EVERY ordered (equivalence, from-dimension -> to-dimension) branch of the live
+    `equivalence_registry` (32 on this tree; cross-checked against C09's regenerated table) × every
+    copying spelling and the in-place ones × operands that are views of a guard buffer (contiguous,
+    strided 2-d, 0-d).  Always executed in full, in both tiers: it is the only place where a copy-mode
+    chain that writes into its input (`out=x`, or `out=` a temporary that IS the input) shows."""
+    from unyt.equivalencies import equivalence_registry
+    from unyt.unit_systems import cgs_unit_system, mks_unit_system
+
+    specs = []
+    for name, cls in equivalence_registry.items():
+        dims = list(cls._dims)
+        for a in dims:
+            for b in dims:
+                if a == b:
+                    continue
+                # two spellings of the operand's unit (SI and CGS base), the target in SI
+                for usys in (mks_unit_system, cgs_unit_system):
+                    u, t = str(usys[a]), str(mks_unit_system[b])
+                    for sh in SHAPES:
+                        for dt in ("float64", "int64"):
+                            if dt == "int64" and (sh != "1d" or usys is cgs_unit_system):
+                                continue
+                            for route in ("to_equivalent", "to", "in_units", "to_value", "convert_to_equivalent",
+                                          "convert_to_units"):
+                                specs.append(dict(route=route, unit=u, target=t, equivalence=name, kwargs={}, dtype=dt,
+                                                  shape=sh, ro=False, fault="valid", branch=f"{name}:{a}->{b}", keep=True))
+    return specs
+
+
 def conversion_specs(tier, rng):
     dts = DTYPES_T if tier == "thorough" else DTYPES_Q
     specs = []
@@ -207,7 +237,7 @@ def conversion_specs(tier, rng):
             if seen[k] <= 2 or rng.random() < 0.22:
                 keep.append(sp)
         specs = keep
-    return specs
+    return specs + equivalence_branch_specs()
 
 
 class _Sub(np.ndarray):
@@ -364,6 +394,15 @@ def core_model_errs():
 
 def run_conversions(chk, M, tier):
     specs = conversion_specs(tier, chk.rng)
+    branches = sorted({sp["branch"] for sp in specs if sp.get("branch")})
+    chk.extra["equivalence_branches_swept"] = len(branches)
+    try:
+        J9 = json.load(open(os.path.join(core.BUILD, "extract_c09_equiv_formulas.json"), encoding="utf-8"))
+        n9 = sum(len(e["branches"]) for e in J9["equivalences"])
+        if n9 != len(branches):
+            chk.disagree("c18.equiv-branches", f"the sweep visits {len(branches)} branches, C09's regenerated table has {n9}")
+    except (OSError, KeyError, ValueError):
+        chk.count("conv:c09-table-unavailable")
     lines, idx, results = [], [], []
     for sp in specs:
         obs = V.run_case(sp)
